@@ -1247,7 +1247,20 @@ func (c *c13ctx) okFalse() *c13n {
 func (c *c13ctx) failing() c13rt {
 	rng := c.rng
 	mk := func(n, at *c13n) c13rt { return c13rt{n: n, at: at} }
-	switch rng.Intn(22) {
+	switch rng.Intn(25) {
+	case 22:
+		// a connective whose LEFT operand is dynamically not a bool: the conditional jump itself fails
+		n := c13bin([]string{"and", "&&", "or", "||"}[rng.Intn(4)], ident([]string{"AnyI", "AnyS"}[rng.Intn(2)], "any"), c.okTrue(), "bool")
+		return mk(n, n)
+	case 23:
+		// a predicate that is dynamically not a bool: the loop's conditional jump / negation fails (at the builtin)
+		cl := c13closure(lit("pointer", "any", "#"))
+		n := c13call("builtin", []string{"all", "any", "none", "one", "filter", "count"}[rng.Intn(6)], "any", c13array("arrany", c.okInt(), c.okInt()), cl)
+		return mk(n, n)
+	case 24:
+		// right operand of a connective evaluated and not a bool is returned as is; the enclosing `not` fails
+		n := c13un("not", c13bin("and", c.okTrue(), ident("AnyI", "any"), "any"), "bool")
+		return mk(n, n)
 	case 0:
 		n := c13index(ident("AI", "arrint"), lit("int", "int", "99"), "int")
 		return mk(n, n)
